@@ -284,8 +284,9 @@ Record eqside := mkSide { s_lhs : expr; s_assign : bool; s_rhs : expr; s_tails :
 
 Inductive item :=
 | IKeyword (b : blockkw)
-| IQty (descr : tname) (n : tname)
+| IQty (descr : tname) (n : tname) (tag : option string)     (* name`tag *)
 | ILog (n : tname)
+| ILogList (tag : string)                                    (* !list(`tag) in a !log-variables block *)
 | IEqn (descr : tname) (dyn : eqside) (steady : option eqside)
 | ISubs (name : string) (assign : bool) (body : expr).
 
@@ -362,8 +363,9 @@ Definition subst_side (c tok : string) (s : eqside) : eqside :=
 Definition subst_item (c tok : string) (it : item) : item :=
   match it with
   | IKeyword b => IKeyword b
-  | IQty d n => IQty (subst_tname c tok d) (subst_tname c tok n)
+  | IQty d n tg => IQty (subst_tname c tok d) (subst_tname c tok n) tg
   | ILog n => ILog (subst_tname c tok n)
+  | ILogList tg => ILogList tg
   | IEqn d dy st => IEqn (subst_tname c tok d) (subst_side c tok dy)
                          (match st with Some s => Some (subst_side c tok s) | None => None end)
   | ISubs nm a b => ISubs nm a b
@@ -553,7 +555,16 @@ Record collected := mkColl {
 
 Definition coll0 : collected := mkColl InNone [] [] [] [] [].
 
-Definition collect1 (st : option collected) (it : item) : option collected :=
+(* _lists.resolve_lists: every name`tag of the whole (preparsed) source, and !list(`tag) = the names with that tag *)
+Definition tags_of (items : list item) : list (string * string) :=
+  flat_map (fun it => match it with
+                      | IQty _ n (Some tg) => match close_name n with Some s => [(tg, s)] | None => [] end
+                      | _ => []
+                      end) items.
+Definition names_tagged (tags : list (string * string)) (tg : string) : list string :=
+  map snd (filter (fun p => String.eqb (fst p) tg) tags).
+
+Definition collect1 (tags : list (string * string)) (st : option collected) (it : item) : option collected :=
   match st with
   | None => None
   | Some c =>
@@ -562,7 +573,7 @@ Definition collect1 (st : option collected) (it : item) : option collected :=
       | IKeyword (BLog ab _), _ => Some (mkColl InLog (c_decls c) (c_log c) (c_allbut c ++ [ab]) (c_eqns c) (c_subs c))
       | IKeyword (BEqn k _), _ => Some (mkColl (InEqn k) (c_decls c) (c_log c) (c_allbut c) (c_eqns c) (c_subs c))
       | IKeyword (BSubs _), _ => Some (mkColl InSubs (c_decls c) (c_log c) (c_allbut c) (c_eqns c) (c_subs c))
-      | IQty d n, InQty k =>
+      | IQty d n _, InQty k =>
           match close_name d, close_name n with
           | Some ds, Some ns =>
               Some (mkColl (c_block c) (c_decls c ++ [mkDecl k ns ds]) (c_log c) (c_allbut c) (c_eqns c) (c_subs c))
@@ -573,6 +584,8 @@ Definition collect1 (st : option collected) (it : item) : option collected :=
           | Some ns => Some (mkColl (c_block c) (c_decls c) (c_log c ++ [ns]) (c_allbut c) (c_eqns c) (c_subs c))
           | None => None
           end
+      | ILogList tg, InLog =>
+          Some (mkColl (c_block c) (c_decls c) (c_log c ++ names_tagged tags tg) (c_allbut c) (c_eqns c) (c_subs c))
       | IEqn d dy sd, InEqn k =>
           match close_name d with
           | Some ds => Some (mkColl (c_block c) (c_decls c) (c_log c) (c_allbut c) (c_eqns c ++ [mkEqn k ds dy sd]) (c_subs c))
@@ -584,7 +597,7 @@ Definition collect1 (st : option collected) (it : item) : option collected :=
       end
   end.
 
-Definition collect (items : list item) : option collected := fold_left collect1 items (Some coll0).
+Definition collect (items : list item) : option collected := fold_left (collect1 (tags_of items)) items (Some coll0).
 
 (* quantities *)
 Record quantity := mkQ { q_name : string; q_kind : qkind; q_descr : string; q_logly : option bool }.
